@@ -12,7 +12,7 @@ import UvModel.StreamR
                                    result of every read/recvmsg call (n ≥ 0 bytes, or -errno)
     peer w <n> | peer fd <n>       the peer writes n pattern bytes (fd: with a descriptor attached)
     peer shut | peer close         the peer half-closes / closes
-  output: `op ...` echo, `cb alloc <id> <size>`, `cb read <nread> buf=<id|-> <hex|->`,
+  output: `op ...` echo, `cb alloc <id> <size> g=<pair>`, `cb read <nread> buf=<id|-> <hex|-> g=<pair>`,
           `ret <op> <code>`, `cb close`, `bad-env ...` when the logged environment was not consumed exactly.
 -/
 namespace Drivers.C06
@@ -38,19 +38,31 @@ def user (d : DS) : User :=
 def opName : CbOp → String
   | .stop => "stop" | .start => "start" | .close => "close"
 
-def fmtEv : Ev → Option String
+/-- `g` = which callback pair is registered: the harness rotates through four pairs, one per successful
+    uv_read_start; the code calls `stream->alloc_cb` / `stream->read_cb` as they are at call time, i.e. the pair of
+    the latest successful start = (number of `ret start 0` so far - 1) mod 4 -/
+def fmtEv (g : Nat) : Ev → Option String
   | .peerW _ => none
   | .peerShut => none
-  | .alloc id sz => some s!"cb alloc {id} {sz}"
+  | .alloc id sz => some s!"cb alloc {id} {sz} g={(g - 1) % 4}"
   | .readCb n buf bytes =>
     let b := match buf with | some id => toString id | none => "-"
     let h := if bytes.isEmpty then "-" else String.join (bytes.map hex2)
-    some s!"cb read {n} buf={b} {h}"
+    some s!"cb read {n} buf={b} {h} g={(g - 1) % 4}"
   | .ret op c => some s!"ret {opName op} {c}"
   | .closeCb => some "cb close"
 
+def isStart0 : Ev → Bool
+  | .ret .start 0 => true
+  | _ => false
+
 def newEvents (old new : St) : List String :=
-  (new.trace.drop old.trace.length).filterMap fmtEv
+  let g0 := (old.trace.filter isStart0).length
+  ((new.trace.drop old.trace.length).foldl (fun (acc : Nat × List String) e =>
+    let g := if isStart0 e then acc.1 + 1 else acc.1
+    match fmtEv g e with
+    | some l => (g, l :: acc.2)
+    | none => (g, acc.2)) (g0, [])).2.reverse
 
 def parseCbOp : String → Option CbOp
   | "stop" => some .stop | "start" => some .start | "close" => some .close | _ => none
